@@ -132,7 +132,7 @@ class Models:
     BUILTIN_FUNCS = {"isinstance", "len", "abs", "round", "hash", "divmod", "min", "max", "int",
                      "type", "reversed", "sorted", "tuple", "list", "str", "format", "iter",
                      "next", "map", "range", "zip", "enumerate", "all", "any", "bool", "repr",
-                     "float", "issubclass", "getattr", "id", "callable", "builtin_sum", "dict",
+                     "float", "issubclass", "getattr", "setattr", "id", "callable", "builtin_sum", "dict",
                      "set", "frozenset", "object", "filter", "hasattr", "staticmethod"}
 
     def global_name(self, module, name, node):
@@ -614,6 +614,12 @@ class Models:
             if attr == "__class__":
                 return ClsV(obj.tid)
             cname = "Money" if self.st.T(obj.tid).money else "Quantity"
+            if self.is_instance_slot(cname, attr):
+                # a further slot of the class: holds what was stored into it, nothing before that
+                ex = getattr(obj, "extra", None) or {}
+                if attr in ex:
+                    return ex[attr]
+                I.raise_("AttributeError", node)
             return self.class_attr(obj, cname, attr, node)
         if isinstance(obj, UnitV):
             if attr == "_qty_cls":
@@ -741,6 +747,11 @@ class Models:
                             if init_v is not None:
                                 self.st.cls_fields[(self.st.tfind(obj.tid), attr)] = init_v
                                 return init_v
+                if attr == "__slots__":
+                    for c_ in self.prog.mro(self.prog.cls("Money" if t.money else "Quantity")):
+                        sl = c_.attrs.get("__slots__")
+                        if isinstance(sl, (ast.List, ast.Tuple)) and all(isinstance(x, ast.Constant) for x in sl.elts):
+                            return (ListV if isinstance(sl, ast.List) else TupleV)([StrV(x.value) for x in sl.elts])
                 I.unsupported(node, f"attribute {attr} of quantity class")
             return self.bind_func(fi, obj, node)
         if isinstance(obj, RateV):
@@ -1144,6 +1155,24 @@ class Models:
             return self.decide_money(self.type_of_unit(obj), node)
         return False
 
+    def is_instance_slot(self, cname, attr) -> bool:
+        """Is `attr` declared as an instance attribute (a slot or an annotated field) of the class or a base, and not
+        a method / property / class-level value?"""
+        ci = self.prog.cls(cname)
+        if self.prog.lookup(ci, attr) is not None:
+            return False
+        for c in self.prog.mro(ci):
+            sl = c.attrs.get("__slots__")
+            if isinstance(sl, (ast.List, ast.Tuple)) and any(isinstance(x, ast.Constant) and x.value == attr for x in sl.elts):
+                return True
+            node_ = getattr(c, "node", None)
+            if node_ is not None:
+                for st_ in node_.body:
+                    if isinstance(st_, ast.AnnAssign) and st_.value is None and isinstance(st_.target, ast.Name) and \
+                            st_.target.id == attr:
+                        return True
+        return False
+
     def class_attr(self, obj, cname, attr, node):
         ci = self.prog.cls(cname)
         fi = self.prog.lookup(ci, attr)
@@ -1184,6 +1213,10 @@ class Models:
                 obj.amount = v
             elif attr == "_unit":
                 obj.unit = v
+            elif self.is_instance_slot("Money" if self.st.T(obj.tid).money else "Quantity", attr):
+                if getattr(obj, "extra", None) is None:
+                    obj.extra = {}
+                obj.extra[attr] = v
             else:
                 self.I.unsupported(node, f"store to quantity field {attr}")
             obj.writes.append((attr, v, self.where(node)))
